@@ -6,9 +6,11 @@ import (
 	"fmt"
 	"io"
 	"os"
+	"runtime"
 	"sort"
 	"strings"
 	"sync"
+	"sync/atomic"
 	"testing"
 	"time"
 
@@ -127,12 +129,43 @@ func isoBody(c isoCase) *fail {
 	}
 	done := make(chan struct{})
 	go func() { wg.Wait(); close(done) }()
-	// watchdog: the workload must finish; a stuck request is a violation
-	timeout := 180 * time.Second
-	select {
-	case <-done:
-	case <-time.After(timeout):
-		return failf("workload-stuck", "concurrent workload did not complete within %v (a request was never answered); calls inside the backend: %v; case %+v", timeout, fs.Inside(), c)
+	// watchdog: the workload must finish; a stuck request is a violation. A
+	// healthy workload finishes in well under a second; it counts as stuck when
+	// no worker made any progress for 30 s, or after 180 s in total.
+	start := time.Now()
+	lastSum, lastChange := int64(-1), time.Now()
+	for finished := false; !finished; {
+		select {
+		case <-done:
+			finished = true
+		case <-time.After(250 * time.Millisecond):
+			var sum int64
+			for i := range progress {
+				sum += atomic.LoadInt64(&progress[i])
+			}
+			if sum != lastSum {
+				lastSum, lastChange = sum, time.Now()
+			}
+			if time.Since(lastChange) > 30*time.Second || time.Since(start) > 180*time.Second {
+				buf := make([]byte, 4<<20)
+				buf = buf[:runtime.Stack(buf, true)]
+				var stuck []string
+				for _, g := range strings.Split(string(buf), "\n\n") {
+					if strings.Contains(g, "hugelgupf/p9/p9.") && !strings.Contains(g, "vconn.(*Stream).Read") {
+						lines := strings.Split(g, "\n")
+						var fr []string
+						for _, l := range lines {
+							if strings.HasPrefix(l, "github.com/hugelgupf/p9/p9.") || strings.HasPrefix(l, "sync.") || strings.HasPrefix(l, "goroutine ") {
+								fr = append(fr, strings.TrimPrefix(strings.SplitN(l, "(0x", 2)[0], "github.com/hugelgupf/p9/p9."))
+							}
+						}
+						stuck = append(stuck, strings.Join(fr, " < "))
+					}
+				}
+				fmt.Printf("STUCK-STACKS\n%s\nEND-STUCK-STACKS\n", strings.Join(stuck, "\n"))
+				return failf("workload-stuck", "concurrent workload made no progress for %v (total %v): a request was never answered; calls inside the backend: %v; case %+v", time.Since(lastChange).Round(time.Second), time.Since(start).Round(time.Second), fs.Inside(), c)
+			}
+		}
 	}
 	close(stop)
 	for _, f := range closers {
@@ -162,7 +195,7 @@ func isoWorker(c isoCase, w int, cl *p9.Client, progress *int64) *fail {
 		return failf("isolation:"+op, "worker %d (alone in /g%d, own fids) step %d: %s returned %v, its sequential model says %v; case %+v", w, w, i, op, got, want, c)
 	}
 	for i := 0; i < c.Ops; i++ {
-		*progress = int64(i)
+		atomic.StoreInt64(progress, int64(i))
 		n1, n2 := names[r.next()%4], names[r.next()%4]
 		switch r.next() % 9 {
 		case 0:
@@ -322,7 +355,7 @@ func isoNoise(c isoCase, n int, cl *p9.Client, progress *int64, stop <-chan stru
 			return
 		default:
 		}
-		*progress = int64(i)
+		atomic.StoreInt64(progress, int64(i))
 		a, b := fmt.Sprintf("s%d", r.next()%4), fmt.Sprintf("s%d", r.next()%4)
 		_, da, err := root.Walk([]string{"shared", a})
 		if err != nil {
@@ -363,7 +396,7 @@ func TestC16Child(t *testing.T) {
 }
 
 func runIsoCase(c isoCase) *fail {
-	code, out, finished := runChild("TestC16Child", map[string]string{"VERIF_CASE": c.encode()}, 300*time.Second)
+	code, out, finished := runChild("TestC16Child", map[string]string{"VERIF_CASE": c.encode()}, 240*time.Second)
 	if !finished {
 		return failf("workload-stuck", "the workload process did not finish within 300 s: %s", tail(out, 3000))
 	}
@@ -383,7 +416,13 @@ func runIsoCase(c isoCase) *fail {
 		if j := strings.IndexByte(line, '\n'); j >= 0 {
 			line = line[:j]
 		}
-		return &fail{Sig: line[len("CHILD-VIOLATION [") : strings.IndexByte(line, ']')], Msg: line}
+		msg := line
+		if a := strings.Index(out, "STUCK-STACKS"); a >= 0 {
+			if b := strings.Index(out, "END-STUCK-STACKS"); b > a {
+				msg += " | server goroutines: " + out[a+12:b]
+			}
+		}
+		return &fail{Sig: line[len("CHILD-VIOLATION [") : strings.IndexByte(line, ']')], Msg: msg}
 	}
 	if strings.Contains(out, "fatal error:") {
 		return failf("runtime-abort", "the server process aborted: %s", firstLines(out, "fatal error:", 25))
@@ -420,6 +459,8 @@ func TestC16(t *testing.T) {
 	defer h.Finish()
 	env := h.Env
 	maxW := env.Pick(16, 64)
+	shrinkTime = "1s" // a stuck workload costs 30 s per attempt: do not spend minutes shrinking it
+	defer func() { shrinkTime = "20s" }()
 	rapidCases(h, "workloads", env.PerShard(env.Pick(400, 3200)), func(rt *rapid.T) isoCase {
 		return isoCase{Seed: rapid.Uint64Range(1, 1<<40).Draw(rt, "seed"), Conns: rapid.IntRange(1, 8).Draw(rt, "conns"),
 			Workers: rapid.IntRange(2, maxW).Draw(rt, "workers"), Noise: rapid.IntRange(0, 4).Draw(rt, "noise"),
